@@ -457,8 +457,11 @@ class Table(JupyterMixin):
                     for _range, column in zip(width_ranges, columns)
                 ]
                 flex_minimum = [
-                    (column.width or 1) + get_padding_width(column._index)
-                    for column in columns
+                    max(
+                        (column.width or 1) + get_padding_width(column._index),
+                        _range.minimum,
+                    )
+                    for _range, column in zip(width_ranges, columns)
                     if column.flexible
                 ]
                 flexible_width = max_width - sum(fixed_widths)
